@@ -5,3 +5,7 @@ package raft
 
 // verifSnapshotC is nil (never ready) unless built with -tags verif (see verif_hooks.go).
 func (this *RaftGroup) verifSnapshotC() chan chan error { return nil }
+
+// verifInjected reports whether the client cached for a peer was put there by the verification
+// harness (never, unless built with -tags verif).
+func (this *RaftTransport) verifInjected(nodeId uint64) bool { return false }
